@@ -403,6 +403,13 @@ class HostNode(Node, discriminator="host-node"):
         """
         super().receive_frame(frame, from_network_interface)
 
+        # a host is not a router: a packet addressed to somebody else is dropped
+        if frame.ip and not any(
+            frame.ip.dst_ip_address in (nic.ip_address, nic.ip_network.broadcast_address)
+            for nic in self.network_interfaces.values()
+        ):
+            return
+
         # Check if the destination port is open on the Node
         dst_port = None
         if frame.tcp:
